@@ -207,9 +207,14 @@ func cmdCheck(args []string) int {
 	if cfg.LemmaArith != "" {
 		lemmaMode = cfg.LemmaArith
 	}
-	evFile := filepath.Join(verifDir(), "evidence", id+".json")
+	evDir := filepath.Join(verifDir(), "evidence")
+	if d := os.Getenv("GOVC_EVIDENCE_DIR"); d != "" {
+		// runs against seeded/mutated trees must not overwrite the evidence of /repo
+		evDir = d
+	}
+	evFile := filepath.Join(evDir, id+".json")
 	os.MkdirAll(filepath.Dir(evFile), 0o755)
-	replayDir := filepath.Join(verifDir(), "evidence", "replay", id)
+	replayDir := filepath.Join(evDir, "replay", id)
 	os.RemoveAll(replayDir)
 
 	l, err := load(splitPkgs(strings.Join(cfg.Pkgs, ",")))
